@@ -551,15 +551,16 @@ def env_cases():
     for m in (1, 2, 7, 4096, B - 1):
         cs.append(C(rich, p=1, env="rdmax=%d" % m))
         cs.append(C(rich, p=1, fd=1, env="rdmax=%d" % m))
-    plain = b"C0640 20000 f1\n" + d + b"\0C0644 3 g\nabc\0"
-    nreads = len(b"C0640 20000 f1\n") + 3 + 1 + len(b"C0644 3 g\n") + 1 + 1 + 1
+    d9 = d[:9000]
+    plain = b"C0640 9000 f1\n" + d9 + b"\0C0644 3 g\nabc\0"
+    nreads = len(b"C0640 9000 f1\n") + 2 + 1 + len(b"C0644 3 g\n") + 1 + 1 + 1
     for k in range(nreads + 1):
         cs.append(C(plain, env="short=%d:1" % k))
-        cs.append(C(plain, env="eintr=%d" % k, oracle_only=True, files=[(b"f1", 20000, d), (b"g", 3, b"abc")]))
+        cs.append(C(plain, env="eintr=%d" % k, oracle_only=True, files=[(b"f1", 9000, d9), (b"g", 3, b"abc")]))
     # write(2) -- file data and replies, one counter -- interrupted or short at every call index; the K-th open(2) failing
     # (EMFILE); fstat(2) failing: oracle only
-    two = b"C0640 20000 f1\n" + d + b"\0C0644 9000 g\n" + d[:9000] + b"\0C0644 3 h\nabc\0"
-    tf = [(b"f1", 20000, d), (b"g", 9000, d[:9000]), (b"h", 3, b"abc")]
+    two = b"C0640 9000 f1\n" + d9 + b"\0C0644 8300 g\n" + d[:8300] + b"\0C0644 3 h\nabc\0"
+    tf = [(b"f1", 9000, d9), (b"g", 8300, d[:8300]), (b"h", 3, b"abc")]
     for k in range(14):
         cs.append(C(two, env="wr=%d:e" % k, oracle_only=True, files=tf))
         cs.append(C(two, env="wr=%d:s" % k, oracle_only=True, files=tf))
@@ -591,7 +592,10 @@ def cnt_of(c, cnt):
     if "blk" not in e:
         return cnt
     b = int(e["blk"])
-    return ((b + pcp.BUFSIZ - 1) // pcp.BUFSIZ) * pcp.BUFSIZ or pcp.BUFSIZ
+    return CNT_BY_BLK.get(b, ((b + pcp.BUFSIZ - 1) // pcp.BUFSIZ) * pcp.BUFSIZ or pcp.BUFSIZ)   # Pcp/Allocbuf.lean `allocSize` (`pdshmodel pcp cnt N`), filled in by run()
+
+
+CNT_BY_BLK = {}
 
 
 def model_line(c, ents, cnt, var):
@@ -686,7 +690,7 @@ def run_cases(ctx, exe, cases, cnt, var, cov, dist, distinct, tag="pcp_server()"
     ctx.log("model runs done")
     judge(ctx, cases, jails, ents_l, [a[0] if a else "" for a, _ in impl], [cr for _, cr in impl], mlines, t0,
           cov, dist, distinct, tag, shrinker=lambda c, sig: shrink(ctx, exe, c, sig))
-    shutil.rmtree(base, ignore_errors=True)
+    pcp.rm_bg(base)
 
 
 def fault_oracle(c, replies, snap):
@@ -1063,6 +1067,10 @@ def run(ctx):
         lc = link_cases()
         dist["symlink_cases_pinned"] = len(lc)
         ec = env_cases()
+        blks = sorted(set(int(env_of(c)["blk"]) for c in ec if "blk" in env_of(c)))
+        for b, a in zip(blks, ctx.model("pcp", "".join("cnt %d\n" % b for b in blks))):
+            CNT_BY_BLK[b] = int(a)
+        dist["bp_cnt_by_st_blksize"] = {str(b): CNT_BY_BLK[b] for b in blks}
         dist["environment_cases_pinned"] = len(ec)
         cases = list(CORPUS) + sysc + lc + ec
         if ctx.replay:
